@@ -102,6 +102,9 @@ func buildDepBlockReusing(spec DepBlock, keys []KeySpec, magic []byte, reuse *bu
 			k = world.NewBtcKey(k.Idx, false) // scripts as a confused depositor would build them
 		}
 		o0, o1 := world.DepositScriptsV1(k, magic, b.evm)
+		if b.key.Schnorr && spec.EvmSeed%2 == 1 {
+			o0 = world.SystemScript(b.key) // the Schnorr key's own key-path output
+		}
 		outs = append(outs, wire.NewTxOut(int64(spec.Value), o0), wire.NewTxOut(0, o1))
 		for i := 0; i < spec.Pad%3; i++ {
 			outs = append(outs, pad(i))
